@@ -274,6 +274,8 @@ class ClassParser(BaseParser):
                     f"Attempt to set immutable attribute: [{repr(field.attname)}]"
                 )
 
+            # a declared __init__ may assign before anything was parsed: resolve pending references like parse() does
+            self.resolve_forward_refs()
             context = self.options.make_context(_obj_self.__class__, force_error=True)
             value = field.parse_value(value, context=context)
             _obj_self.__dict__[field.attname] = value
